@@ -4,9 +4,9 @@ package main
 
 import (
 	"fmt"
-	"os"
 	"go/token"
 	"go/types"
+	"os"
 	"sort"
 	"strings"
 
@@ -624,7 +624,9 @@ func (c *nonNegCtx) subGuarded(s *ssa.BinOp, at ssa.Instruction) bool {
 		if !ok {
 			continue
 		}
-		same := func(u, v ssa.Value) bool { return u == v || sameSource(stripConv(u), stripConv(v)) || stripConv(u) == stripConv(v) }
+		same := func(u, v ssa.Value) bool {
+			return u == v || sameSource(stripConv(u), stripConv(v)) || stripConv(u) == stripConv(v)
+		}
 		// orientation: does the condition say a < b (or a <= b - ...)?
 		var lessTrue, found bool
 		switch {
